@@ -978,11 +978,19 @@ postfixexpr(struct scope *s, struct expr *r)
 					expect(TCOMMA, "or ')' after function call argument");
 				if (!p && !t->u.func.isvararg)
 					error(&tok.loc, "too many arguments for function call");
-				*end = assignexpr(s);
-				if (t->u.func.isvararg && !p)
-					*end = exprpromote(*end);
-				else
-					*end = exprassign(*end, p->type);
+				tmp = assignexpr(s);
+				if (t->u.func.isvararg && !p) {
+					*end = exprpromote(tmp);
+				} else {
+					*end = exprassign(tmp, p->type);
+					/*
+					array lengths in a parameter's type are in the scope of
+					the prototype (C11 6.7.6.2p5), the caller cannot evaluate
+					them; converting to such a pointer type changes nothing
+					*/
+					if (*end != tmp && p->type->prop & PROPVM)
+						(*end)->type = mkpointertype(&typevoid, QUALNONE);
+				}
 				end = &(*end)->next;
 				++e->u.call.nargs;
 				if (p)
